@@ -255,7 +255,7 @@ func (c *RecConn) Close() error {
 	return nil
 }
 
-func (c *RecConn) SetReadLimit(int64)             {}
+func (c *RecConn) SetReadLimit(int64) {}
 func (c *RecConn) SetReadTimeout(d time.Duration) {
 	c.mu.Lock()
 	c.readTimeout = d
@@ -391,9 +391,9 @@ type closureRec struct {
 // ScriptBackend implements broker.Backend under the control of the scenario.
 type ScriptBackend struct {
 	pubErrQueueFull bool // an injected Publish failure is broker.ErrQueueFull (the publisher's own queue is full)
-	log  *Log
-	mu   sync.Mutex
-	sess *RecSession
+	log             *Log
+	mu              sync.Mutex
+	sess            *RecSession
 
 	authResult  string // ok | deny | err
 	setupResult string // ok | err
